@@ -277,13 +277,15 @@ Definition rec_spec_code (c : c05_case) : nat :=
   let '(sender, ops, outs) := c in
   oracle sender 0 (mkOst None [] [] (-1) 0 0) ops outs.
 
-Fixpoint find_codes (l : list c05_case) (i : nat) : list (nat * nat) :=
+(* (index, failure code) as Z pairs: generated case files are in Z scope, where
+   nat pairs would print with %nat and not be recognised by bin/check *)
+Fixpoint find_codes (l : list c05_case) (i : Z) : list (Z * Z) :=
   match l with
   | [] => []
   | c :: tl => match rec_spec_code c with
-               | O => find_codes tl (S i)
-               | k => (i, k) :: find_codes tl (S i)
+               | O => find_codes tl (i + 1)
+               | k => (i, Z.of_nat k) :: find_codes tl (i + 1)
                end
   end.
 
-Definition rec_spec_failures (cases : list c05_case) : list (nat * nat) := find_codes cases 0.
+Definition rec_spec_failures (cases : list c05_case) : list (Z * Z) := find_codes cases 0.
